@@ -4,6 +4,11 @@ manifest is always valid)."""
 import json, sys
 
 CHECKS = {
+ "C06": dict(
+   text="Structural necessary conditions of correct cache answers, decided on every feasible CFG path: an existing per-key versions map is never replaced when (re)installing it; a handed-out entry is reached only with its tombstone tested false; each layer consults its own map before delegating (block layer continues at the previous block); the ancestor walk only follows the queried hash and stored links, memoises the found entry under the queried hash; entries are stored under the key/hash given and remove arms store deleted=true.",
+   note="Does not decide answers after LRU eviction nor equality with the block-tree oracle for every history (value-level). Trusted: go/ssa model; structural equality of tested atoms; third-party LRU as a named API.",
+   technique="path-sensitive guard (must-pass-through) checks on go/ssa CFG, provenance dataflow for hash/key sources",
+   ref="DESIGN.md section 5 C06"),
  "C07": dict(
    text="Structural necessary conditions of cache isolation decided on every CFG path: every Value crossing a cache-map boundary (caller->map, map->caller, txn->block->state) has a Clone() result as its only provenance; setValue/commit are reachable only from the commit entry points; every Clone() implementation is a deep (codec) copy. Breaking any of these shares a mutable value or leaks an uncommitted write.",
    note="Decides the copy-on-boundary, layering and deep-copy clauses only; 'after commit the values are what lookups return' is value-level and not decided. Trusted: go/types+go/ssa model of the source; CHA resolution of interface calls; third-party LRU treated as a named API.",
